@@ -186,6 +186,7 @@ def run_all(tier, seed, use_cache=True):
     store = {}
     if use_cache and os.path.exists(cpath):
         try:
+            os.utime(cpath, None)
             with open(cpath) as fh:
                 store = json.load(fh)
         except Exception:
@@ -197,9 +198,10 @@ def run_all(tier, seed, use_cache=True):
         for (job, probs, stats), (j, k) in zip(res, todo):
             store[k] = {"job": [job[0] if job[0].startswith("gen:") else os.path.relpath(job[0], corpus.REPO), job[1], job[2]], "probs": probs, "stats": stats}
         os.makedirs(cdir, exist_ok=True)
-        for f in os.listdir(cdir):
-            if (f.startswith("jobs_") or f.startswith("pipeline_")) and f != "jobs_%s.json" % th:
-                os.remove(os.path.join(cdir, f))
+        # keep the caches of the three most recently used trees (the unchanged tree survives a few runs on changed ones)
+        olds = sorted((f for f in os.listdir(cdir) if (f.startswith("jobs_") or f.startswith("pipeline_")) and f != "jobs_%s.json" % th), key=lambda f: os.path.getmtime(os.path.join(cdir, f)), reverse=True)
+        for f in olds[2:]:
+            os.remove(os.path.join(cdir, f))
         tmp = cpath + ".%d.tmp" % os.getpid()
         with open(tmp, "w") as fh:
             json.dump(store, fh)
